@@ -37,6 +37,7 @@ real_sleep = _time_mod.sleep
 Empty = _queue_mod.Empty
 Full = _queue_mod.Full
 
+SLEEP = 'time.sleep'        # waitobj of a thread inside (virtual) time.sleep(): a timed wait like any other
 HOLD = 'injected hold'      # waitobj of a thread parked by the harness at a pre-emption point (not a wait of the code under test)
 CUR = None          # the active Sim (one per case), or None -> pass-through behaviour
 
@@ -580,7 +581,7 @@ def _vsleep(d):
         return
     if len(st.waits) < 4096:
         st.waits.append((sim.now, d))
-    sim.block_current(sim.now + max(d, 0))
+    sim.block_current(sim.now + max(d, 0), SLEEP)
 
 
 def _queue_factory(*a, **kw):
